@@ -33,7 +33,7 @@ def main():
     for p in sorted(glob.glob(os.path.join(HERE, "seeded", "*", "meta.json"))):
         m = json.load(open(p))
         rows.append("| %s | %s | %s | %s | %s |" % (os.path.basename(os.path.dirname(p)), m.get("property"), m.get("summary", "").replace("|", "/")[:160],
-                                              m.get("needs", "").replace("|", "/")[:120], m.get("caught_by", "not run yet")))
+                                              m.get("needs", "").replace("|", "/")[:120], (m.get("caught_by", "not run yet") + ((" - " + m["history"]) if m.get("history") else "")).replace("|", "/")))
     if rows:
         out.append("| id | property | change | needs | caught by |\n|---|---|---|---|---|")
         out += rows
